@@ -168,8 +168,10 @@ def c12():
     R = Report("c12_runtime", "C12", "Forest x 5 solvers x (frequency, retention, sync/async) x call sequences solve(k1); solve(k2); directory listing after wait_until_finished vs the documented cadence/retention; per-step content; f = 0")
     for name, (cls, kw) in SOLVERS.items():
         ref = cls(Forest(S=11, p=0.2), verbose=0, **kw); nref = int(ref.solve(400).info.iteration)
-        for (f, m, asyn, calls) in [(1, 1, True, [2]), (2, 2, False, [3, 2]), (3, 5, True, [min(7, nref - 1), 400])] + ([(4, 1, False, [4, 4]), (2, 3, True, [1, 1, 1])] if TH else []):
-            d = os.path.join(base, f"c12_{name}_{f}_{m}"); s = cls(Forest(S=11, p=0.2), verbose=0, checkpoint_dir=d, checkpoint_frequency=f, max_checkpoints=m, enable_async_checkpointing=asyn, **kw)
+        # incl. runs that END BY CONVERGENCE at iteration N with N = f+1, N = f, N = f+2 and f = 1 (periodic save right before / at / two before the stop)
+        conv = [(1, 3, False, [400]), (max(nref - 1, 1), 2, False, [400]), (nref, 2, True, [400]), (max(nref - 2, 1), 3, False, [400]), (2, 2, False, [400]), (3, 2, False, [1, 400])]
+        for (f, m, asyn, calls) in [(1, 1, True, [2]), (2, 2, False, [3, 2]), (3, 5, True, [min(7, nref - 1), 400])] + conv + ([(4, 1, False, [4, 4]), (2, 3, True, [1, 1, 1])] if TH else []):
+            d = os.path.join(base, f"c12_{name}_{f}_{m}_{len(calls)}_{calls[0]}"); s = cls(Forest(S=11, p=0.2), verbose=0, checkpoint_dir=d, checkpoint_frequency=f, max_checkpoints=m, enable_async_checkpointing=asyn, **kw)
             inp = dict(solver=name, frequency=f, max_checkpoints=m, async_=asyn, calls=calls); R.case((name, f, m, asyn, tuple(calls)), inp)
             allowed = set(); it = 0; ok = True
             for k in calls:
